@@ -40,7 +40,10 @@ def gen(rng, tier, idx):
         parts.append({'n_files': rng.randint(1, 3), 'split_seed': rng.randrange(2 ** 31),
                       'encoding': rng.choice(['dense', 'csr', 'csc']),
                       'rows_at_a_time': rng.choice([1, 2, 3, 5, 9, 40]), 'n_processors': rng.randint(1, 6),
-                      'sched': common.draw_sched(rng)})
+                      'sched': common.draw_sched(rng),
+                      # inputs staged into the scratch directory first (library option), and input files that share a
+                      # base name in different directories (donor_0/expression.h5ad, donor_1/expression.h5ad)
+                      'copy_data_over': rng.random() < 0.3, 'same_basename': rng.random() < 0.35})
     return {'wp': wp, 'parts': parts, 'normalised': rng.random() < 0.3, 'plant_cpm1': rng.random() < 0.5,
             'plant_near_cpm1': rng.random() < 0.3, 'seed': rng.randrange(2 ** 31), 'kcfg': common.draw_kernel_cfg(rng)}
 
@@ -118,7 +121,11 @@ def write_split(sb, X, ids, genes, part, tag):
     paths = []
     for i in range(len(bounds) - 1):
         a, b = bounds[i], bounds[i + 1]
-        p = sb.p('in', 'ref_%s_%d.h5ad' % (tag, i))
+        if part.get('same_basename'):
+            os.makedirs(sb.p('in', 'donor_%s_%d' % (tag, i)), exist_ok=True)
+            p = sb.p('in', 'donor_%s_%d' % (tag, i), 'expression.h5ad')
+        else:
+            p = sb.p('in', 'ref_%s_%d.h5ad' % (tag, i))
         world.write_h5ad(p, X[a:b], ids[a:b], genes, encoding=part['encoding'])
         paths.append(p)
     return paths
@@ -173,7 +180,8 @@ def run(scn, sb):
             o, s = harness.run_call(dict(part['sched']), drivers.run_precompute, paths, tax_dict, dst,
                                     sb.p('scratch'), rows_at_a_time=part['rows_at_a_time'],
                                     n_processors=part['n_processors'],
-                                    normalization='log2CPM' if normalised else 'raw')
+                                    normalization='log2CPM' if normalised else 'raw',
+                                    copy_data_over=bool(part.get('copy_data_over')))
             scheds.append(s)
             res['evaluations'] += 1
             what = 'partition %d (%d files, %s, rows_at_a_time %d, %d workers, %s)' % (
